@@ -74,6 +74,7 @@ EXTENDS Integers, Sequences, FiniteSets, TLC
 CONSTANT Skip      \* checks of the code left out: subset of CheckNames ({} = pinned code)
 
 CheckNames == {"partsigs", "aggsig", "check_fees", "kernel_verify", "validate", "restore_fee", "restore_amount", "proof",
+               "restore_fee_nonzero",   \* the fee is restored from the context only when the reply names none
                "late_take"}    \* late_take: the late-lock step leaves late_lock_args in the saved context (.clone() for .take())
 
 \* ======================================================================
@@ -306,7 +307,8 @@ Asm(c, ctx0, r, mode) ==
       ctx == IF ~inv /\ ctx0.late THEN LateStep(c, ctx0, r) ELSE ctx0
       off == BAdd(BSub(BSub(r.off, ctx.isec), SumB(ctx.ins)), SumB(ctx.outs))        \* adjust_offset
       amt == IF ~ideal /\ "restore_amount" \in Skip THEN r.amt ELSE ctx.amt          \* repopulate_tx
-      fee == IF inv \/ (~ideal /\ "restore_fee" \in Skip) THEN r.fee ELSE ctx.fee    \* update_fee only in the S2 branch
+      fee == IF inv \/ (~ideal /\ "restore_fee" \in Skip) \/ (~ideal /\ "restore_fee_nonzero" \in Skip /\ r.fee # 0)
+             THEN r.fee ELSE ctx.fee                                                 \* update_fee only in the S2 branch
       mx == IF inv THEN ctx.isec ELSE ctx.sec                                         \* temp_ctx in the I2 branch
       mk == IF inv THEN ctx.inonce ELSE ctx.nonce
       parts1 == AddPart(IF ideal THEN Dedup(r.parts) ELSE r.parts, mx, mk)
@@ -396,18 +398,30 @@ PostClasses ==
    "part_none", "part_fresh", "part_stale", "entry_drop", "entry_dup", "entry_add", "entry_add_signed",
    "out_add_adj", "out_add_noadj", "in_add_adj", "inout_add_adj", "out_drop", "out_replace", "out_dup",
    "out_to_in", "out_feat_cb", "proof_swap", "commit_swap", "coms_none", "in_drop", "in_replace", "in_to_out",
-   "pp_drop", "pp_rsig_none", "pp_rsig_fresh", "pp_raddr", "pp_saddr", "pp_add"}
+   "pp_drop", "pp_rsig_none", "pp_rsig_fresh", "pp_raddr", "pp_saddr", "pp_add",
+   "echo"}      \* echo: the reply's amount and fee fields carry what the counterparty was asked (non-compact reply)
+\* CONSISTENT COUNTERPARTY: the request (S1 / I1) is altered, the counterparty's REAL step answers it - its
+\* output, its partial signature and its offset all agree with the altered terms - and the reply comes back
+\* non-compact, naming the altered amount and fee in its own fields ("echo").  Nothing in such a reply
+\* contradicts itself; only the finalizer's stored context knows what was agreed.
+CCClasses == {"cc_amt_minus", "cc_amt_plus", "cc_fee_plus", "cc_fee_minus", "cc_both", "cc_both_rev"}
 PreClasses == {"pre_amt_plus", "pre_amt_minus", "pre_fee_plus", "pre_fee_minus", "pre_feat_hl", "pre_off", "pre_xs", "pre_nonce"}
+              \cup CCClasses
 
 Tamper(s, class, env) ==
   LET p1 == s.parts[1]
       o == FirstIdx(s.coms, "out")
       n == FirstIdx(s.coms, "in") IN
   CASE class = "none" -> s
-    [] class \in {"amt_set", "pre_amt_plus"} -> [s EXCEPT !.amt = env.amt + 1]
-    [] class = "pre_amt_minus" -> [s EXCEPT !.amt = env.amt - 1]
-    [] class \in {"fee_set", "pre_fee_plus"} -> [s EXCEPT !.fee = env.fee + 1]
-    [] class \in {"fee_minus", "pre_fee_minus"} -> [s EXCEPT !.fee = env.fee - 1]
+    [] class \in {"amt_set", "pre_amt_plus", "cc_amt_plus"} -> [s EXCEPT !.amt = env.amt + 1]
+    [] class \in {"pre_amt_minus", "cc_amt_minus"} -> [s EXCEPT !.amt = env.amt - 1]
+    [] class = "cc_both" -> [s EXCEPT !.amt = env.amt - 1, !.fee = env.fee + 1]
+    [] class = "cc_both_rev" -> [s EXCEPT !.amt = env.amt + 1, !.fee = env.fee - 1]
+    \* env.famt / env.ffee: amount and fee of the request as the counterparty received it; in an invoice the
+    \* payer sets the fee itself and the reply already names it
+    [] class = "echo" -> [s EXCEPT !.amt = env.famt, !.fee = IF env.inv THEN s.fee ELSE env.ffee]
+    [] class \in {"fee_set", "pre_fee_plus", "cc_fee_plus"} -> [s EXCEPT !.fee = env.fee + 1]
+    [] class \in {"fee_minus", "pre_fee_minus", "cc_fee_minus"} -> [s EXCEPT !.fee = env.fee - 1]
     [] class = "fee_zero" -> [s EXCEPT !.fee = 0]
     [] class \in {"off_shift", "pre_off"} -> [s EXCEPT !.off = BAdd(s.off, At("ad"))]
     [] class = "off_zero" -> [s EXCEPT !.off = BZero]
@@ -506,7 +520,7 @@ Applicable(c) ==
         \* adds or rewrites a commitment, which one is first depends on the sort order (not modelled)
         /\ ~(c.tamper \in ComRewrite /\ c.tamper2 \in ComPositional)
   \* an invoice whose amount was altered on the way changes the payer's selection: only with change to absorb it
-  /\ (c.tamper \in {"pre_amt_plus", "pre_amt_minus"} /\ IsInvoice(c) => c.nch > 0)
+  /\ (c.tamper \in {"pre_amt_plus", "pre_amt_minus", "cc_amt_plus", "cc_amt_minus", "cc_both", "cc_both_rev"} /\ IsInvoice(c) => c.nch > 0)
 
 \* ======================================================================
 \* 4. PROPERTY
@@ -527,9 +541,12 @@ Exchange(c) ==
                      late |-> FALSE, pidx |-> FALSE, locked |-> FALSE, nsel |-> 0, resv |-> <<>>, nsent |-> 0, entrypp |-> NoPP] IN
   IF step.res # "ok" THEN [reply |-> FALSE, why |-> step.why]
   ELSE
-  LET env == [amt |-> DealAmt(c), fee |-> DealFee(c), fin |-> init.slate.parts[1]]
+  LET env == [amt |-> DealAmt(c), fee |-> DealFee(c), fin |-> init.slate.parts[1],
+              famt |-> fwd.amt, ffee |-> fwd.fee, inv |-> inv]
       can1 == c.stage # "post" \/ CanApply(step.slate, c.tamper)
-      r1 == IF c.stage = "post" /\ can1 THEN Tamper(step.slate, c.tamper, env) ELSE step.slate
+      r1 == IF c.stage = "post" /\ can1 THEN Tamper(step.slate, c.tamper, env)
+            ELSE IF c.tamper \in CCClasses THEN Tamper(step.slate, "echo", env)      \* consistent counterparty: non-compact reply
+            ELSE step.slate
       can2 == c.tamper2 = "none" \/ CanApply(r1, c.tamper2)
       r == IF c.tamper2 # "none" /\ can2 THEN Tamper(r1, c.tamper2, env) ELSE r1
       mine == IF self THEN step.ctx ELSE init.ctx
